@@ -24,7 +24,9 @@ RULE = ("random Clifford circuits (plus exact rational rotations, incl. near-det
         "density-matrix simulator; model probabilities are exact rationals, compared to 1e-9; distinct by payload; fixed families: every gate name of "
         "Qiskit's standard library on 1-4 qubits and user-defined gates under arbitrary names (independent simulator only for the names outside "
         "the model's table), a classical bit overwritten by a second qubit followed by a reset and re-use of either qubit, several (circuit, parameter values) "
-        "pairs in one ExactSampler.run -- the same parametrised circuit object with different values, copies, other circuits in between (independent simulator only)")
+        "pairs in one ExactSampler.run -- the same parametrised circuit object with different values, copies, other circuits in between (independent simulator only); "
+        "every parametrised standard gate (plain and through expressions p/2, -p, 2p+c; dynamic circuits) bound by the sampler with values inside and "
+        "outside [0, 2pi): negative, beyond one / two / many turns, exact multiples of 2pi (independent simulator only)")
 ASSUMPTIONS = ["Qiskit Statevector.evolve / probabilities and IEEE rounding are outside the model; the implementation's 1e-16 pruning tolerance is modelled as 0",
                "the concrete Clifford backend of the model (exact Gaussian-rational amplitudes) is validated against the implementation, not proved Lawful / ExSem (the refinement theorem holds for every backend whose states have expectation vectors transformed by transfer matrices)",
                "through ExactSampler: QuasiDistribution keeps integer keys"]
@@ -155,6 +157,62 @@ def _sweep_cases():
                          "oracle_only": True, "always_oracle": True})
 
 
+# values handed to the sampler for a parametrised circuit: inside [0, 2pi) and outside (negative, beyond one / two / many turns, exact turns)
+TWO_PI = 2 * np.pi
+PVALS = [[0.4, 1.3, 2.9, 0.8], [-0.9, -3.3, -0.2, -5.1], [TWO_PI + 0.4, 7.5, 9.0, TWO_PI + 2.2], [-TWO_PI - 1.1, 2 * TWO_PI + 0.7, -11.0, 14.2],
+         [100.0, -40.5, 33.3, -77.7], [TWO_PI, -TWO_PI, 3 * TWO_PI, TWO_PI]]
+
+
+def _pstd_text(instrs):
+    out = []
+    for i in instrs:
+        if i["name"] == "pstd":
+            args = ", ".join("p%d" % j if (a == 1 and b == 0) else ("%g*p%d" % (a, j) + ("%+g" % b if b else "")) for a, j, b in i["pexpr"])
+            out.append(f"{i['gate']}({args}) on {i['qubits']}")
+    return "; ".join(out)
+
+
+def _param_range_cases():
+    """seed-independent: parametrised circuits bound by the sampler (ExactSampler.run(circuits, parameter_values)) with values inside AND
+    outside [0, 2pi) -- negative, beyond one, two, many turns, exact multiples of 2pi -- feeding every parametrised gate of Qiskit's standard
+    library (controlled rotations and cu/cu3 are 4pi-periodic, not 2pi-periodic), plain and through expressions (p/2, -p, 2p+c, two
+    parameters in one gate, one parameter in two gates), in dynamic circuits (mid-circuit measurement, reset, overwritten bit).  The
+    distribution returned for a pair must be the true one of the circuit with exactly those numbers written in.  The model has neither
+    parameters nor these gate names: independent simulator only (oracle_only)."""
+    g = lambda nm, *qs: {"name": nm, "qubits": list(qs)}                                              # noqa: E731
+    m = lambda q, c: {"name": "measure", "qubits": [q], "clbits": [c]}                                # noqa: E731
+    P = lambda gate, qs, *ex: {"name": "pstd", "gate": gate, "qubits": list(qs), "pexpr": [list(x) for x in ex]}   # noqa: E731
+    e = lambda c, vals, **kw: dict({"c": c, "vals": [float(v) for v in vals]}, **kw)                  # noqa: E731
+    # (i) every parametrised standard gate between layers of fixed rotations, all qubits measured; one run = the value sets one after the other
+    for name, k, npar in _std_gate_names():
+        if npar == 0:
+            continue
+        pre = [{"name": "ry", "qubits": [q], "params": [0.9 + 0.4 * q]} for q in range(k)]
+        post = [{"name": "rx", "qubits": [q], "params": [-0.6 + 0.5 * q]} for q in range(k)]
+        circ = {"pvec": npar, "instrs": pre + [P(name, range(k), *[(1, j, 0) for j in range(npar)])] + post + [m(q, q) for q in range(k)]}
+        yield ("sweep", {"nq": k, "ncl": k, "instrs": circ["instrs"], "circs": [circ], "sweep": [e(0, v[:npar]) for v in PVALS], "via": "sampler",
+                         "oracle_only": True, "always_oracle": True})
+    # (ii) hand-made circuits: control in superposition that interferes afterwards, expressions, mid-circuit measurement / reset
+    A = {"pvec": 1, "instrs": [g("h", 0), g("x", 1), P("crz", (0, 1), (1, 0, 0)), g("h", 0), m(0, 0), m(1, 1)]}
+    B = {"pvec": 2, "instrs": [g("h", 0), g("h", 1), P("crx", (0, 1), (1, 0, 0)), g("h", 0), m(0, 0), g("reset", 0), P("cry", (1, 0), (1, 1, 0)),
+                               m(1, 1), m(0, 2)]}
+    C = {"pvec": 1, "instrs": [P("rx", (0,), (0.5, 0, 0)), g("h", 1), P("cp", (1, 0), (-1, 0, 0)), g("h", 1), m(0, 0), m(1, 1)]}
+    D = {"pvec": 2, "instrs": [g("h", 0), P("ry", (1,), (2, 0, 0.3)), P("crz", (0, 1), (0.5, 1, -0.2)), P("rz", (0,), (1, 0, 0)), g("h", 0), m(0, 0),
+                               g("x", 0), m(0, 0), P("rzz", (0, 1), (0.5, 1, 0)), g("h", 1), m(1, 1)]}
+    E = {"pvec": 4, "instrs": [g("h", 0), g("sx", 1), P("cu", (0, 1), (1, 0, 0), (1, 1, 0), (1, 2, 0), (1, 3, 0)), g("h", 0), g("barrier", 0, 1),
+                               m(0, 0), m(1, 1)]}
+    F = {"pvec": 1, "instrs": [g("h", 0), g("h", 1), P("cu3", (0, 1), (1, 0, 0), (0.5, 0, 0), (-1, 0, 1.0)), g("h", 0), m(0, 2), g("reset", 1), m(1, 1)]}
+    for circs, sweep in (([A], [e(0, [v[0]]) for v in PVALS]),
+                         ([B, A], [e(0, PVALS[1][:2]), e(1, [PVALS[2][0]]), e(0, PVALS[2][:2]), e(0, PVALS[0][:2]), e(1, [PVALS[3][0]], copy=True),
+                                   e(0, PVALS[4][:2])]),
+                         ([C], [e(0, [v[0]]) for v in PVALS] + [e(0, [-1.2])]),
+                         ([D], [e(0, v[:2]) for v in PVALS]),
+                         ([E], [e(0, v) for v in PVALS]),
+                         ([F, C], [e(0, [PVALS[1][0]]), e(1, [PVALS[2][1]]), e(0, [PVALS[3][1]]), e(0, [PVALS[0][0]]), e(0, [PVALS[5][0]])])):
+        yield ("sweep", {"nq": 2, "ncl": 3, "instrs": circs[0]["instrs"], "circs": circs, "sweep": sweep, "via": "sampler",
+                         "oracle_only": True, "always_oracle": True})
+
+
 def _angle(t):
     import math
     t = Fraction(t)
@@ -165,7 +223,7 @@ def _run_sweep(payload):
     from qiskit_addon_cutting.utils.simulation import ExactSampler
     objs = [_circ(dict(payload, pvec=c.get("pvec"), instrs=c["instrs"])) for c in payload["circs"]]
     circuits = [objs[en["c"]].copy() if en.get("copy") else objs[en["c"]] for en in payload["sweep"]]
-    values = [[_angle(t) for t in en["t"]] for en in payload["sweep"]]
+    values = [[float(v) for v in en["vals"]] if "vals" in en else [_angle(t) for t in en["t"]] for en in payload["sweep"]]
     dists = ExactSampler().run(circuits, values).result().quasi_dists
     return {"ok": [sorted((int(k), float(v)) for k, v in d.items()) for d in dists]}
 
@@ -181,10 +239,11 @@ def _oracle_sweep(payload):
         c = payload["circs"][en["c"]]
         # reference: the circuit written out with the numeric angles of this entry
         bound = [dict(i, t=en["t"][i["pidx"]]) if i.get("pidx") is not None else i for i in c["instrs"]]
-        br = sem.simulate(_circ(dict(payload, pvec=None, instrs=bound)))
+        br = sem.simulate(_circ(dict(payload, pvec=None, pvals=en.get("vals"), instrs=bound)))
         exp = {int(k): float(np.real(np.trace(r))) for k, r in br.items() if abs(np.trace(r)) > 1e-13}
         got = {k: v for k, v in dist if abs(v) > 1e-13}
-        where = f"entry {pos} of one ExactSampler.run (circuit #{en['c']}{' (copy)' if en.get('copy') else ''}, parameter t-values {en['t']})"
+        where = (f"entry {pos} of one ExactSampler.run (circuit #{en['c']}{' (copy)' if en.get('copy') else ''}, "
+                 + (f"parameter values {en['vals']}; gates {_pstd_text(c['instrs'])})" if "vals" in en else f"parameter t-values {en['t']})"))
         if abs(sum(v for _, v in dist) - 1) > 1e-9:
             return f"{where}: probabilities sum to {sum(v for _, v in dist)}"
         for k in sorted(set(exp) | set(got)):
@@ -196,6 +255,7 @@ def _oracle_sweep(payload):
 def cases(rng, tier):
     yield from _deterministic_cases()
     yield from _sweep_cases()
+    yield from _param_range_cases()
     N = 250 if tier == "quick" else 4000
     # two branches that reach the same classical outcome with states of equal magnitudes but different relative phase (reset of an
     # entangled qubit, or an overwritten classical bit), followed by a phase-sensitive gate and measurement
@@ -308,6 +368,15 @@ def _circ(payload, key="instrs"):
                 op.name = ins["gname"]
         elif ins["name"] == "std":
             op = _mk_std(ins["gate"], ins.get("params", ()))
+        elif ins["name"] == "pstd":
+            # a standard gate whose k-th argument is a * (parameter #j) + b for ins["pexpr"][k] = [a, j, b]: built on the elements of the
+            # ParameterVector (bound by the sampler), or -- payload["pvals"] given -- written out with the numbers (the reference circuit)
+            from qiskit.circuit.library.standard_gates import get_standard_gate_name_mapping
+            if payload.get("pvals") is not None:
+                args = [float(a) * float(payload["pvals"][j]) + float(b) for a, j, b in ins["pexpr"]]
+            else:
+                args = [pv[j] if (a == 1 and b == 0) else (a * pv[j] if b == 0 else a * pv[j] + b) for a, j, b in ins["pexpr"]]
+            op = get_standard_gate_name_mapping()[ins["gate"]].base_class(*args)
         elif ins["name"] == "opaque_cl":
             op = Instruction("opaque_cl", 1, 1, [])
         elif ins["name"] == "barrier":
